@@ -42,9 +42,13 @@ static const int NVAR = 3;
 static double image(const Variant& v, long k) { return ((double)k + v.shift4) * v.scale / 4.0; }
 
 static long nmis = 0, printed = 0;
+static long cur_nx = 0, cur_lin = 0;
 static void mismatch(const char* kind, long id, const char* var, long x4, long res, const std::string& text) {
   nmis++;
-  if (printed < 4000) { printed++; printf("MISMATCH %s %ld %s %ld %ld %s\n", kind, id, var, x4, res, text.c_str()); }
+  // bounded report that still names every failing class (kind, nx, uniform?, reason)
+  static std::map<std::string, int> per_class;
+  int& n = per_class[std::string(kind) + "/" + std::to_string(cur_nx) + "/" + std::to_string(cur_lin) + "/" + text];
+  if (n < 6 && printed < 20000) { n++; printed++; printf("MISMATCH %s %ld %s %ld %ld %s\n", kind, id, var, x4, res, text.c_str()); }
 }
 
 static int table_mode() {
@@ -60,7 +64,7 @@ static int table_mode() {
       for (auto& n : nodes) std::cin >> n;
       std::vector<std::vector<long>> allowed(nxs);
       for (auto& a : allowed) { long c; std::cin >> c; a.resize(c); for (auto& y : a) std::cin >> y; }
-      ngrids++;
+      ngrids++; cur_nx = nx; cur_lin = lin;
       if (!objs.count(nx)) { objs[nx].reset(new SQuIDS(nx, 2, 1, 0)); objs2[nx].reset(new SQuIDS(nx, 2, 1, 0)); }
       SQuIDS& o = *objs[nx];
       for (int vi = 0; vi < NVAR; vi++) {
@@ -98,7 +102,7 @@ static int table_mode() {
       std::cin >> id >> nx >> len;
       std::vector<double> v(len);
       for (auto& y : v) { long k; std::cin >> k; y = k / 4.0; }
-      std::cin >> verdict;
+      std::cin >> verdict; cur_nx = nx; cur_lin = 0;
       SQuIDS o(nx, 2, 1, 0);
       std::vector<double> init(nx);
       for (long i = 0; i < nx; i++) init[i] = 100 + i;
